@@ -16,9 +16,11 @@ This private submodule is *not* intended for importation by downstream callers.
 # ....................{ IMPORTS                            }....................
 from ast import PyCF_ONLY_AST
 from beartype.claw._ast.clawastmain import BeartypeNodeTransformer
+from beartype.claw._importlib import clawimpcache
 from beartype.claw._importlib.clawimpcache import (  # type: ignore[attr-defined]
     cache_from_source_beartype,
     cache_from_source_original,
+    make_cache_optimization_marker,
 )
 from beartype.roar import BeartypeClawImportAstException
 from beartype._conf.confmain import BeartypeConf
@@ -487,8 +489,20 @@ class BeartypeSourceFileLoader(SourceFileLoader):
         # beartype-specific type-checking.
         #
         # Note that @agronholm (Alex Grönholm) claims that "the import lock
-        # should make this monkey patch safe." We're trusting you here, man!
-        _bootstrap_external.cache_from_source = cache_from_source_beartype
+        # should make this monkey patch safe." Sadly, Python >= 3.3 replaced the
+        # global import lock by per-module import locks. Other threads may thus
+        # concurrently import other (possibly unhooked) modules while this
+        # monkey-patch is in effect. This monkey-patch is thus:
+        # * Only applied to the module being imported by the current thread, by
+        #   recording the configuration-specific optimization marker of this
+        #   module in thread-local storage consulted by this replacement.
+        # * Only reverted after *ALL* threads concurrently importing hooked
+        #   modules have finished doing so.
+        clawimpcache._cache_thread_local.optimization_marker = (
+            make_cache_optimization_marker(conf))
+        with clawimpcache._cache_patch_lock:
+            clawimpcache._cache_patch_count += 1
+            _bootstrap_external.cache_from_source = cache_from_source_beartype
 
         # Attempt to defer to the superclass method.
         try:
@@ -497,8 +511,12 @@ class BeartypeSourceFileLoader(SourceFileLoader):
         # After doing so (and regardless of whether doing so raises an
         # exception), restore the original cache_from_source() function.
         finally:
-            _bootstrap_external.cache_from_source = (
-                cache_from_source_original)
+            clawimpcache._cache_thread_local.optimization_marker = None
+            with clawimpcache._cache_patch_lock:
+                clawimpcache._cache_patch_count -= 1
+                if not clawimpcache._cache_patch_count:
+                    _bootstrap_external.cache_from_source = (
+                        cache_from_source_original)
 
 
     # Note that we explicitly ignore mypy override complaints here. For unknown
